@@ -1,3 +1,32 @@
 package main
 
-func dumpMore(out map[string]any) {}
+import (
+	"github.com/edutko/decipher/internal/file"
+)
+
+func dumpMore(out map[string]any) {
+	type row struct {
+		Patterns []string `json:"patterns"`
+		Magics   [][]int  `json:"magics"`
+		Sniffer  string   `json:"sniffer"`
+		Parser   string   `json:"parser"`
+	}
+	var rows []row
+	for _, r := range file.VerifFiletypes() {
+		rr := row{Patterns: r.Patterns, Sniffer: r.Sniffer, Parser: r.Parser, Magics: [][]int{}}
+		if rr.Patterns == nil {
+			rr.Patterns = []string{}
+		}
+		for _, m := range r.Magics {
+			ints := make([]int, len(m))
+			for i, b := range m {
+				ints[i] = int(b)
+			}
+			rr.Magics = append(rr.Magics, ints)
+		}
+		rows = append(rows, rr)
+	}
+	out["filetypes"] = rows
+	out["max_read_size"] = file.MaxReadSize
+	dumpMore2(out)
+}
